@@ -57,12 +57,15 @@ def run_traces(ctx, name, drv_args, timeout=1500):
     return v, st, reqinfo, rawev
 
 
-def report(ctx, v, reqinfo, own, sample_events=None):
+def report(ctx, v, reqinfo, own, sample_events=None, tag=None):
     """Turns the `bad` records of a validated trace into verdicts for property `own`."""
     others = []
     for b in v["bad"]:
         info = reqinfo.get(b["r"], {})
         key = "%s:%s:%s:%s" % (b["p"], slug(b["what"]), info.get("op", "?"), info.get("class", "?"))
+        if tag:
+            # family-tagged checks (C08) identify a finding by what fails and in which scenario family
+            key = "%s:%s@%s" % (b["p"], slug(b["what"]), tag)
         ctxev = None
         if sample_events is not None and b.get("at"):
             at = b["at"]
@@ -119,7 +122,9 @@ def run_property(ctx, own, plans, scenario_filter=None, nscen=700, extra_cov=Non
     path = ctx.path("scenarios.jsonl")
     write_scripts(path, chosen)
     total_events, traces, others, samples, stats_all, nreq = 0, 0, [], [], [], 0
-    for name, args, scripted in plans:
+    for plan in plans:
+        name, args, scripted = plan[0], plan[1], plan[2]
+        tag = plan[3] if len(plan) > 3 else None
         a = (["-in", path] if scripted else []) + args
         v, st, reqinfo, _ = run_traces(ctx, name, a)
         total_events += v["total"]
@@ -127,7 +132,7 @@ def run_property(ctx, own, plans, scenario_filter=None, nscen=700, extra_cov=Non
         nreq += len(reqinfo)
         st.pop("goroutine_dump", None)
         stats_all.append({name: st})
-        others += report(ctx, v, reqinfo, own, v["events"])
+        others += report(ctx, v, reqinfo, own, v["events"], tag=tag)
         if not samples:
             samples = [e for e in v["events"] if e["ev"] != "GC"][:30]
     ctx.assumptions += [
